@@ -98,3 +98,19 @@ Check C26_covariant_refuted :
     EoResponse {| er_data := Some [(xs "i", JNull)];
                   er_errors := [{| ge_class := EcNull; ge_path := [PsKey (xs "i"); PsKey (xs "f")] |}] |}.
 Print Assumptions C26_covariant_refuted.
+
+(* Second known class: `scalar Any  type Query { any(j: Any): Any }`, `query($v: Int) { any(j: {a: $v}) }` with
+   {"v": 3}: a variable nested in a literal at a scalar position is not substituted; the valid document's field
+   fails with a SuspectedValidationBug error and its resolver is never called. *)
+Theorem C26_nested_variable_refuted :
+  (exists d, td_build x_nv2_schema x_nv2_doc = Some d /\ known_nested_var d = true) /\
+  execute_request x_nv2_schema x_nv2_doc [(xs "v", JInt 3)] [((0%N, xs "any"), BhEcho)] =
+    (EoResponse {| er_data := Some [(xs "any", JNull)];
+                   er_errors := [{| ge_class := EcBug; ge_path := [PsKey (xs "any")] |}] |}, []).
+Proof. exact c26_nested_variable_refuted. Qed.
+Check C26_nested_variable_refuted :
+  (exists d, td_build x_nv2_schema x_nv2_doc = Some d /\ known_nested_var d = true) /\
+  execute_request x_nv2_schema x_nv2_doc [(xs "v", JInt 3)] [((0%N, xs "any"), BhEcho)] =
+    (EoResponse {| er_data := Some [(xs "any", JNull)];
+                   er_errors := [{| ge_class := EcBug; ge_path := [PsKey (xs "any")] |}] |}, []).
+Print Assumptions C26_nested_variable_refuted.
